@@ -416,6 +416,16 @@ impl Monitors {
                 if len != t.len {
                     // a never-acknowledged size probe (the newest segment) may be re-cut from the same offset
                     let recut_ok = is_newest && !t.acked && self.probe_seq == Some(seq);
+                    if !recut_ok && t.acked && !self.desync {
+                        // the peer holds this sequence number in its original size: everything behind it
+                        // is laid out at other stream positions by the two ends from now on
+                        v.push(f(
+                            "C01",
+                            "wire-payload",
+                            "payload/acknowledged-sequence-number-recut",
+                            format!("sequence number {} was acknowledged by the peer as {} bytes and is now re-sent as {} bytes: the stream positions of all later data differ between the two ends", seq, t.len, len),
+                        ));
+                    }
                     if !recut_ok {
                         v.push(f(
                             "C06",
@@ -1211,6 +1221,12 @@ impl Monitors {
             let ring = wh.verif_ring_contents();
             let start = w.written.saturating_sub(ring.len() as u64);
             if ring.len() as u64 > w.written || ring.iter().enumerate().any(|(i, b)| *b != coded(start + i as u64, SALT_EP)) {
+                v.push(f(
+                    "C01",
+                    "tx-buffer-content",
+                    "txbuf/ring-content-differs-from-accepted-bytes",
+                    format!("the TX ring holds {} bytes that are not the last bytes accepted by write ({} accepted in total): what will be sent is not what was written", ring.len(), w.written),
+                ));
                 v.push(f(
                     "C19",
                     "tx-buffer-content",
